@@ -302,10 +302,10 @@ func cmdProperty(args []string) {
 	for _, r := range rules {
 		fmt.Printf("rule %-16s instances=%-4d obligations=%-4d discharged=%-4d assumed=%-3d findings=%d\n", r.ID, r.Instances, r.Obligations, r.Discharged, r.Assumed, len(r.Findings))
 	}
-	if len(infra) > 0 {
-		for _, m := range infra {
-			fmt.Printf("INFRA-FAILURE: %s\n", m)
-		}
+	for _, m := range infra {
+		fmt.Printf("INFRA-FAILURE: %s\n", m)
+	}
+	if len(infra) > 0 && len(violations) == 0 {
 		os.Exit(2)
 	}
 	if len(violations) > 0 {
